@@ -267,6 +267,95 @@ pub fn run(tier: Tier) -> Report {
     run_pics(&rep, "event", &pics, &stats);
     rep.add_nontrivial(pics.len() as u64);
 
+    // ---- the same extreme / saturating levels with the quantizer reached through DQUANT instead of
+    // PQUANT: in the macroblock that carries the update, in a later plain macroblock, after a chain
+    // up from 1 or down from 31, and after an excursion that returns to the picture quantizer
+    let mut pics = vec![];
+    {
+        let steps_to = |from: i32, to: i32| -> Vec<i8> {
+            let mut v = vec![];
+            let mut cur = from;
+            while cur != to {
+                let d = (to - cur).clamp(-2, 2);
+                v.push(d as i8);
+                cur += d;
+            }
+            v
+        };
+        let mut push_path = |pq: i32, dqs: &[i8], ev: &Ev, hdr0: &Hdr, tail_plain: bool| {
+            if !(1..=31).contains(&pq) || dqs.is_empty() {
+                return;
+            }
+            let with_ev = |i: usize| -> [Blk; 6] {
+                let mut blocks: [Blk; 6] = std::array::from_fn(|b| Blk::dc(dc_code(i + 1, b)));
+                blocks[2].ev = vec![ev.clone()];
+                blocks[5].ev = vec![ev.clone()];
+                blocks
+            };
+            let mut mbs = vec![];
+            for (i, &d) in dqs.iter().enumerate() {
+                let last = i + 1 == dqs.len();
+                let blocks = if last && !tail_plain { with_ev(i) } else { std::array::from_fn(|b| Blk::dc(dc_code(i + 1, b))) };
+                mbs.push(Mb::Coded { kind: Kind::IntraQ, dquant: d, mvd: vec![], blocks });
+            }
+            if tail_plain {
+                mbs.push(Mb::Coded { kind: Kind::Intra, dquant: 0, mvd: vec![], blocks: with_ev(dqs.len()) });
+            }
+            let w = (16 * mbs.len()) as u16;
+            let mut hdr = hdr0.clone();
+            match &mut hdr {
+                Hdr::S(h) => {
+                    h.q = pq as u8;
+                    h.size = SSize::auto(w, 16);
+                }
+                Hdr::Std(h) => *h = StdHdr::custom(w, 16, false, h.tr, pq as u8),
+            }
+            pics.push(Pic { hdr, mbs });
+        };
+        for q in 1..=31i32 {
+            // levels around the saturation point of this quantizer, the extremes of each form, +-1
+            let sat = ((2048 / q - 1) / 2).max(1) as i16;
+            let mut levels: Vec<i16> = vec![1, 127, 1023, sat - 1, sat, sat + 1, sat + 2];
+            if tier.thorough() {
+                levels = (1..=1023).collect();
+            }
+            for &lv in &levels {
+                for s in [1i16, -1] {
+                    let l = lv * s;
+                    let mut evs: Vec<(Ev, &Hdr)> = vec![];
+                    if (1..=127).contains(&lv) {
+                        evs.push((Ev { run: 3, level: l, form: Form::Esc8 }, &v0[0]));
+                        evs.push((Ev { run: 3, level: l, form: Form::Esc8 }, &v0[1]));
+                    }
+                    if (1..=63).contains(&lv) {
+                        evs.push((Ev { run: 3, level: l, form: Form::Esc7 }, &v1[0]));
+                    }
+                    if (1..=1023).contains(&lv) {
+                        evs.push((Ev { run: 3, level: l, form: Form::Esc11 }, &v1[0]));
+                    }
+                    for (ev, hdr) in evs {
+                        for tail_plain in [false, true] {
+                            push_path(q - 2, &[2], &ev, hdr, tail_plain);
+                            push_path(q + 2, &[-2], &ev, hdr, tail_plain);
+                            push_path(q - 1, &[1], &ev, hdr, tail_plain);
+                            push_path(q + 1, &[-1], &ev, hdr, tail_plain);
+                            push_path(1, &steps_to(1, q), &ev, hdr, tail_plain);
+                            push_path(31, &steps_to(31, q), &ev, hdr, tail_plain);
+                            push_path(q, &[if q <= 29 { 2 } else { -2 }, if q <= 29 { -2 } else { 2 }], &ev, hdr, tail_plain);
+                            // an excursion far away and back: up to 31 (or down to 1) and back to q
+                            let far = if q <= 16 { 31 } else { 1 };
+                            let mut there = steps_to(q, far);
+                            there.extend(steps_to(far, q));
+                            push_path(q, &there, &ev, hdr, tail_plain);
+                        }
+                    }
+                }
+            }
+        }
+    }
+    run_pics(&rep, "event-after-dquant", &pics, &stats);
+    rep.add_nontrivial(pics.len() as u64);
+
     // ---- two-event chains (running zig-zag index)
     let mut pics = vec![];
     let step = if tier.thorough() { 1 } else { 3 };
